@@ -22,8 +22,13 @@ func c14BoundaryLens() []int {
 }
 
 func captureWrite(server bool, W int, path int, bin bool, payload []byte, chunks []int, eofData bool, pool webtrans.BufferPool) ([]byte, error) {
+	return captureWriteBuf(server, W, path, bin, payload, chunks, eofData, pool, nil)
+}
+
+// captureWriteBuf: ownBuf, when not nil, is a write buffer handed in by the caller (its size unrelated to W).
+func captureWriteBuf(server bool, W int, path int, bin bool, payload []byte, chunks []int, eofData bool, pool webtrans.BufferPool, ownBuf []byte) ([]byte, error) {
 	pipe := newHalfPipe()
-	wc := webtrans.NewConn(nil, &memWTStream{out: pipe, in: newHalfPipe()}, server, 0, W, pool, nil, nil)
+	wc := webtrans.NewConn(nil, &memWTStream{out: pipe, in: newHalfPipe()}, server, 0, W, pool, nil, ownBuf)
 	if err := wtWrite(wc, path, bin, payload, chunks, eofData); err != nil {
 		return nil, err
 	}
@@ -67,21 +72,32 @@ func TestC14EncoderSweep(t *testing.T) {
 
 func TestC14EncoderRandom(t *testing.T) {
 	col := NewCollector("TestC14EncoderRandom",
-		"rapid: (kind, boundary-biased length up to 300000, write path, chunking, role, write buffer size, pool); oracle: captured bytes == reference encoding of one frame. non-trivial: length >= 126 or chunked write").Use(t)
+		"rapid: (kind, boundary-biased length up to 300000, write path, chunking, role, write buffer size, pool or a caller-supplied write buffer of unrelated size); oracle: captured bytes == reference encoding of one frame. non-trivial: length >= 126 or chunked write").Use(t)
 	rapid.Check(t, func(rt *rapid.T) {
 		W := rapid.SampledFrom(wtWriteBufSizes).Draw(rt, "W")
 		eW := effW(W)
 		server := rapid.Bool().Draw(rt, "server")
 		usePool := rapid.Bool().Draw(rt, "pool")
+		// a write buffer handed in by the caller (NewConn's last parameter), its size unrelated to the configured one
+		var ownBuf []byte
+		bufCls := "write-buffer.own"
+		if !usePool && rapid.IntRange(0, 2).Draw(rt, "callerSuppliedWriteBuf") == 0 {
+			ownBuf = make([]byte, rapid.SampledFrom([]int{265, 266, 300, 521, 1033, 4096, 4105, 4106, 9000, 20000}).Draw(rt, "ownBufLen"))
+			bufCls = "write-buffer.caller-supplied.larger-than-configured"
+			if len(ownBuf) < eW+9 {
+				bufCls = "write-buffer.caller-supplied.smaller-than-configured"
+			}
+			eW = len(ownBuf) - 9
+		}
 		m := genWTMsg(rt, eW, 0, false, col)
 		var pool webtrans.BufferPool
 		if usePool {
 			pool = &memPool{}
 		}
 		pl := makePayload(m.Len, m.Seed)
-		got, err := captureWrite(server, W, m.Path, m.Bin, pl, m.Chunks, m.EOFData, pool)
-		col.Case(fmt.Sprintf("%d|%v|%v|%v", W, server, usePool, m), m.Len >= 126 || len(m.Chunks) > 0,
-			map[string]any{"W": W, "server": server, "msg": m.String()}, m.cls, "path."+wtPathNames[m.Path])
+		got, err := captureWriteBuf(server, W, m.Path, m.Bin, pl, m.Chunks, m.EOFData, pool, ownBuf)
+		col.Case(fmt.Sprintf("%d|%v|%v|%v|%d", W, server, usePool, m, len(ownBuf)), m.Len >= 126 || len(m.Chunks) > 0,
+			map[string]any{"W": W, "server": server, "msg": m.String(), "callerWriteBuf": len(ownBuf)}, m.cls, "path."+wtPathNames[m.Path], bufCls)
 		if err != nil {
 			rt.Fatalf("%v: %v", m, err)
 		}
